@@ -290,3 +290,5 @@ def run(program, rep, tier):
     check_gate(program, rep)
     check_release(program, rep)
     check_direct(program, rep)
+    from rules import c13
+    c13.instance_state(program, rep, 'C04.instance-state')
